@@ -1,22 +1,70 @@
 //! C11: function handles keep alive exactly what they need.
 //!
-//! Histories of {new runtime, compile, get handle, clone handle, call, drop
-//! handle / package / runtime, drop a handle on another thread} are executed
-//! against the real API. After every step a small ownership model says which
-//! drop-tracked instances (script constants, registered constants, state captured
-//! by registered closures) must be live, and what every surviving handle returns.
+//! Histories of {new runtime, compile, get handle, clone handle, turn a handle into
+//! an `into_func()` closure, call, drop handle / closure / package / runtime, drop a
+//! handle or closure on another thread} are executed against the real API. After
+//! every step a small ownership model says which drop-tracked instances (script
+//! constants, registered constants, state captured by registered closures) must be
+//! live, and what every surviving handle and closure returns (`call`, `call_tuple`
+//! and the `impl Fn` made by `into_func`).
+//!
+//! Case layout:
+//! * `scenario:closure-holds-script-list`: all drop orders of {runtime, package,
+//!   handles, clones, closures} of a world whose registered closure keeps the
+//!   `List[String]`s the script hands to it (a separate enumerated block, first);
+//! * all well-formed histories up to the exhaustive length, visited in a strided
+//!   order so that every prefix of the case range is a spread over the whole space
+//!   (the debug and sanitizer jobs run a prefix);
+//! * random long histories (every third one in a world of the scenario kind).
 
 use std::collections::BTreeMap;
-use std::sync::Arc;
+use std::sync::{Arc, Mutex};
 
-use roto::{FileTree, NoCtx, Package, Runtime, TypedFunc, Val, library};
+use roto::{FileTree, List, NoCtx, Package, RotoString, Runtime, TypedFunc, Val, library};
 
 use crate::host::{self, Trk};
 use crate::jsonw::J;
 use crate::rng::Rng;
 use crate::work::{Args, CaseOut, Family, catch, hash_str, panic_sig};
 
-type Handle = TypedFunc<NoCtx, fn() -> i64>;
+type Handle = TypedFunc<NoCtx, fn(i64) -> i64>;
+
+/// What `into_func()` returns, boxed. Whether the closure may cross threads is decided
+/// by the compiler from the closure type the API returns (see `Probe`), not asserted here.
+enum Callable {
+    Sendable(Box<dyn Fn(i64) -> i64 + Send + Sync>),
+    Local(Box<dyn Fn(i64) -> i64>),
+}
+
+impl Callable {
+    fn call(&self, mode: i64) -> i64 {
+        match self {
+            Callable::Sendable(f) => f(mode),
+            Callable::Local(f) => f(mode),
+        }
+    }
+}
+
+/// `Probe(closure).boxed()` resolves to the inherent method when the closure type is
+/// `Send + Sync` and to the trait method otherwise.
+struct Probe<T>(T);
+trait BoxLocal {
+    fn boxed(self) -> Callable;
+}
+impl<T: Fn(i64) -> i64 + 'static> BoxLocal for Probe<T> {
+    fn boxed(self) -> Callable {
+        Callable::Local(Box::new(self.0))
+    }
+}
+impl<T: Fn(i64) -> i64 + Send + Sync + 'static> Probe<T> {
+    fn boxed(self) -> Callable {
+        Callable::Sendable(Box::new(self.0))
+    }
+}
+
+fn into_callable(h: Handle) -> Callable {
+    Probe(h.into_func()).boxed()
+}
 
 #[derive(Clone, Copy, Debug, PartialEq, Eq, PartialOrd, Ord)]
 enum Op {
@@ -33,15 +81,22 @@ enum Op {
     CloneHandle,
     DropOldHandle,
     DropNewHandle,
-    /// drop the oldest handle on a helper thread
+    /// call the oldest handle on a helper thread and drop it there
     ThreadDropHandle,
     DropOldPackage,
     DropNewPackage,
     DropOldRuntime,
     DropNewRuntime,
+    /// turn the oldest / newest handle into an `into_func()` closure
+    IntoFuncOld,
+    IntoFuncNew,
+    DropOldClosure,
+    DropNewClosure,
+    /// call the oldest closure on a helper thread and drop it there
+    ThreadDropClosure,
 }
 
-const OPS: [Op; 13] = [
+const OPS: [Op; 18] = [
     Op::NewRuntime,
     Op::Compile,
     Op::CompileOld,
@@ -55,27 +110,267 @@ const OPS: [Op; 13] = [
     Op::DropNewPackage,
     Op::DropOldRuntime,
     Op::DropNewRuntime,
+    Op::IntoFuncOld,
+    Op::IntoFuncNew,
+    Op::DropOldClosure,
+    Op::DropNewClosure,
+    Op::ThreadDropClosure,
 ];
 
-struct RtObj {
-    id: usize,
-    rt: Runtime<NoCtx>,
-}
-struct PkgObj {
-    id: usize,
-    rt_id: usize,
-    pkg: Package<NoCtx>,
-}
-struct HObj {
-    pkg_id: usize,
-    rt_id: usize,
-    f: Handle,
-}
+const START: [Op; 3] = [Op::NewRuntime, Op::Compile, Op::GetNew];
 
 const RC_TAG: i64 = 10_000;
 const CAP_TAG: i64 = 20_000;
 const CAP2_TAG: i64 = 25_000;
+const SINK_TAG: i64 = 27_000;
 const SC_TAG: i64 = 30_000;
+
+/// scale of the mode argument (plain worlds) / of the value `keep` or `forget` returned
+/// (scenario worlds) in the result of `f`
+const ARG_SCALE: i64 = 1_000_000_000_000;
+
+// ---------------------------------------------------------------------------
+// the ownership model (pure data: no API object is touched here)
+// ---------------------------------------------------------------------------
+
+/// (package id, runtime id) of a handle, closure or package
+type Owner = (usize, usize);
+
+#[derive(Clone, Debug)]
+struct Model {
+    /// scenario world: the runtime has `keep`/`forget` closures whose state stores the
+    /// lists the script makes; one package per runtime
+    sink: bool,
+    rts: Vec<usize>,
+    pkgs: Vec<Owner>,
+    hs: Vec<Owner>,
+    cs: Vec<Owner>,
+    next_rt: usize,
+    next_pkg: usize,
+    cur_rt: Option<usize>,
+    /// runtimes that have had a package compiled
+    compiled_on: Vec<usize>,
+    /// per runtime: the value of every list the closure state holds
+    stored: BTreeMap<usize, Vec<i64>>,
+    calls: u64,
+}
+
+/// the strings of the list `f(mode)` of package `pkg_id` hands to `keep`
+fn list_strings(pkg_id: usize, mode: i64) -> Vec<String> {
+    let p = format!("p{pkg_id}");
+    match mode {
+        1 => vec![p],
+        2 => vec![p, "bc".to_string()],
+        _ => vec![format!("x{p}y"), "bc".to_string(), "def".to_string()],
+    }
+}
+
+fn string_value(s: &str) -> i64 {
+    s.len() as i64 * 8 + (s.as_bytes().first().copied().unwrap_or(0) % 8) as i64
+}
+
+fn list_value<'a>(strs: impl Iterator<Item = &'a str>) -> i64 {
+    100 + strs.map(string_value).sum::<i64>()
+}
+
+fn base_result(pkg_id: usize, rt_id: usize) -> i64 {
+    (SC_TAG + pkg_id as i64) * 1_000_000 + (RC_TAG + rt_id as i64) * 10 + (CAP_TAG + rt_id as i64) % 10 + ((CAP2_TAG + rt_id as i64) % 10) * 100_000_000_000
+}
+
+impl Model {
+    fn new(sink: bool) -> Model {
+        Model {
+            sink,
+            rts: Vec::new(),
+            pkgs: Vec::new(),
+            hs: Vec::new(),
+            cs: Vec::new(),
+            next_rt: 0,
+            next_pkg: 0,
+            cur_rt: None,
+            compiled_on: Vec::new(),
+            stored: BTreeMap::new(),
+            calls: 0,
+        }
+    }
+
+    fn may_compile_on(&self, rt: usize) -> bool {
+        self.next_pkg < 4 && (!self.sink || !self.compiled_on.contains(&rt))
+    }
+
+    fn applicable(&self, op: Op) -> bool {
+        match op {
+            Op::NewRuntime => self.next_rt < 3,
+            Op::Compile => self.cur_rt.is_some_and(|c| self.rts.contains(&c) && self.may_compile_on(c)),
+            Op::CompileOld => self.rts.len() >= 2 && self.may_compile_on(self.rts[0]),
+            Op::GetNew => !self.pkgs.is_empty(),
+            Op::GetOld => self.pkgs.len() >= 2,
+            Op::CloneHandle | Op::DropOldHandle | Op::ThreadDropHandle | Op::IntoFuncOld => !self.hs.is_empty(),
+            Op::DropNewHandle | Op::IntoFuncNew => self.hs.len() >= 2,
+            Op::DropOldPackage => !self.pkgs.is_empty(),
+            Op::DropNewPackage => self.pkgs.len() >= 2,
+            Op::DropOldRuntime => !self.rts.is_empty(),
+            Op::DropNewRuntime => self.rts.len() >= 2,
+            Op::DropOldClosure | Op::ThreadDropClosure => !self.cs.is_empty(),
+            Op::DropNewClosure => self.cs.len() >= 2,
+        }
+    }
+
+    fn compile_target(&self, op: Op) -> usize {
+        if op == Op::Compile { self.cur_rt.unwrap() } else { self.rts[0] }
+    }
+
+    fn step(&mut self, op: Op) {
+        match op {
+            Op::NewRuntime => {
+                let id = self.next_rt;
+                self.next_rt += 1;
+                self.rts.push(id);
+                self.cur_rt = Some(id);
+            }
+            Op::Compile | Op::CompileOld => {
+                let rt = self.compile_target(op);
+                let id = self.next_pkg;
+                self.next_pkg += 1;
+                self.compiled_on.push(rt);
+                self.pkgs.push((id, rt));
+            }
+            Op::GetNew => self.hs.push(*self.pkgs.last().unwrap()),
+            Op::GetOld => self.hs.push(self.pkgs[0]),
+            Op::CloneHandle => self.hs.push(self.hs[0]),
+            Op::DropOldHandle | Op::ThreadDropHandle => {
+                self.hs.remove(0);
+            }
+            Op::DropNewHandle => {
+                self.hs.pop();
+            }
+            Op::DropOldPackage => {
+                self.pkgs.remove(0);
+            }
+            Op::DropNewPackage => {
+                self.pkgs.pop();
+            }
+            Op::DropOldRuntime => {
+                self.rts.remove(0);
+            }
+            Op::DropNewRuntime => {
+                self.rts.pop();
+            }
+            Op::IntoFuncOld => {
+                let h = self.hs.remove(0);
+                self.cs.push(h);
+            }
+            Op::IntoFuncNew => {
+                let h = self.hs.pop().unwrap();
+                self.cs.push(h);
+            }
+            Op::DropOldClosure | Op::ThreadDropClosure => {
+                self.cs.remove(0);
+            }
+            Op::DropNewClosure => {
+                self.cs.pop();
+            }
+        }
+        // closure state nobody owns any more is gone
+        let alive = self.state_owners();
+        self.stored.retain(|rt, _| alive.contains(rt));
+    }
+
+    /// runtimes whose registered constants and closure state somebody still owns
+    fn state_owners(&self) -> Vec<usize> {
+        let mut v: Vec<usize> = self.rts.clone();
+        v.extend(self.pkgs.iter().map(|p| p.1));
+        v.extend(self.hs.iter().map(|h| h.1));
+        v.extend(self.cs.iter().map(|c| c.1));
+        v.sort();
+        v.dedup();
+        v
+    }
+
+    /// packages whose machine code and script constants somebody still owns
+    fn module_owners(&self) -> Vec<usize> {
+        let mut v: Vec<usize> = self.pkgs.iter().map(|p| p.0).collect();
+        v.extend(self.hs.iter().map(|h| h.0));
+        v.extend(self.cs.iter().map(|c| c.0));
+        v.sort();
+        v.dedup();
+        v
+    }
+
+    fn owner_count(&self, pkg: usize) -> usize {
+        self.pkgs.iter().chain(self.hs.iter()).chain(self.cs.iter()).filter(|o| o.0 == pkg).count()
+    }
+
+    /// the object `op` drops, if it is a package, handle or closure
+    fn dropped_owner(&self, op: Op) -> Option<Owner> {
+        match op {
+            Op::DropOldHandle | Op::ThreadDropHandle => self.hs.first().copied(),
+            Op::DropNewHandle => self.hs.last().copied(),
+            Op::DropOldPackage => self.pkgs.first().copied(),
+            Op::DropNewPackage => self.pkgs.last().copied(),
+            Op::DropOldClosure | Op::ThreadDropClosure => self.cs.first().copied(),
+            Op::DropNewClosure => self.cs.last().copied(),
+            _ => None,
+        }
+    }
+
+    /// Scenario worlds: `op` drops the last owner of a package's machine code while the
+    /// closure state (owned by the runtime object as well) would survive it. Lists made by
+    /// that code must not outlive it (documented limit of the list type, not C11's
+    /// business), so they are taken out of the state through that last owner first.
+    fn must_forget_before(&self, op: Op) -> Option<Owner> {
+        if !self.sink {
+            return None;
+        }
+        let o = self.dropped_owner(op)?;
+        (self.owner_count(o.0) == 1 && self.rts.contains(&o.1)).then_some(o)
+    }
+
+    /// expected multiset of live tags
+    fn expected_live(&self) -> BTreeMap<i64, usize> {
+        let mut m = BTreeMap::new();
+        for r in self.state_owners() {
+            *m.entry(RC_TAG + r as i64).or_insert(0) += 1;
+            *m.entry(CAP_TAG + r as i64).or_insert(0) += 1;
+            *m.entry(CAP2_TAG + r as i64).or_insert(0) += 1;
+            if self.sink {
+                *m.entry(SINK_TAG + r as i64).or_insert(0) += 1;
+            }
+        }
+        for p in self.module_owners() {
+            *m.entry(SC_TAG + p as i64).or_insert(0) += 1;
+        }
+        m
+    }
+
+    /// the argument of the next call of a handle or closure
+    fn next_mode(&mut self) -> i64 {
+        self.calls += 1;
+        if self.sink { 1 + (self.calls % 3) as i64 } else { (self.calls % 7) as i64 }
+    }
+
+    /// what `f(mode)` of that package returns now (and what it does to the closure state)
+    fn expect_call(&mut self, o: Owner, mode: i64) -> i64 {
+        let base = base_result(o.0, o.1);
+        if !self.sink {
+            return base + mode * ARG_SCALE;
+        }
+        let st = self.stored.entry(o.1).or_default();
+        if mode == 0 {
+            let n = st.len() as i64;
+            st.clear();
+            base + n * ARG_SCALE
+        } else {
+            let strs = list_strings(o.0, mode);
+            st.push(list_value(strs.iter().map(|s| s.as_str())));
+            base + st.iter().sum::<i64>() * ARG_SCALE
+        }
+    }
+}
+
+// ---------------------------------------------------------------------------
+// the real objects
+// ---------------------------------------------------------------------------
 
 /// Every closure this returns has the same Rust type (and the same monomorphised
 /// call shim); they differ only in the state they capture.
@@ -93,7 +388,46 @@ fn capture_fn(name: &'static str, cap: Arc<Trk>) -> roto::Function {
     .expect("closure item")
 }
 
-fn make_runtime(id: usize) -> Runtime<NoCtx> {
+/// State captured by the `keep` / `forget` closures of a scenario runtime.
+struct Sink {
+    trk: Trk,
+    lists: Mutex<Vec<List<RotoString>>>,
+}
+
+fn keep_fn(s: Arc<Sink>) -> roto::Function {
+    roto::Function::new(
+        "keep",
+        "store the list in the captured state; returns the value of everything stored",
+        vec!["l"],
+        move |l: List<RotoString>| -> i64 {
+            s.trk.check("keep");
+            let mut g = s.lists.lock().unwrap_or_else(|e| e.into_inner());
+            g.push(l);
+            g.iter().map(|l| list_value(l.to_vec().iter().map(|x| &**x))).sum()
+        },
+        roto::location!(),
+    )
+    .expect("keep item")
+}
+
+fn forget_fn(s: Arc<Sink>) -> roto::Function {
+    roto::Function::new(
+        "forget",
+        "drop every stored list; returns how many there were",
+        vec![],
+        move || -> i64 {
+            s.trk.check("forget");
+            let mut g = s.lists.lock().unwrap_or_else(|e| e.into_inner());
+            let n = g.len() as i64;
+            g.clear();
+            n
+        },
+        roto::location!(),
+    )
+    .expect("forget item")
+}
+
+fn make_runtime(id: usize, sink: bool) -> Runtime<NoCtx> {
     let cap = Arc::new(Trk::new(CAP_TAG + id as i64));
     let cap2 = Arc::new(Trk::new(CAP2_TAG + id as i64));
     let rc = Trk::new(RC_TAG + id as i64);
@@ -116,127 +450,124 @@ fn make_runtime(id: usize) -> Runtime<NoCtx> {
     // two closures of the same Rust type, each with its own captured state
     rt.add(capture_fn("cap_tag", cap)).expect("cap_tag");
     rt.add(capture_fn("cap2_tag", cap2)).expect("cap2_tag");
+    if sink {
+        let s = Arc::new(Sink { trk: Trk::new(SINK_TAG + id as i64), lists: Mutex::new(Vec::new()) });
+        rt.add(keep_fn(s.clone())).expect("keep");
+        rt.add(forget_fn(s)).expect("forget");
+    }
     rt
 }
 
-fn script(pkg_id: usize) -> String {
+fn script(pkg_id: usize, sink: bool) -> String {
     let t = SC_TAG + pkg_id as i64;
+    let base = "SC.tag() * 1000000 + RC.tag() * 10 + cap_tag() % 10 + (cap2_tag() % 10) * 100000000000 + N * 0";
+    if !sink {
+        return format!("const SC: Trk = mk({t});\nconst N: i64 = {pkg_id};\nfn f(mode: i64) -> i64 {{\n    {base} + mode * {ARG_SCALE}\n}}\n");
+    }
+    // the lists are built by the script itself: literals and strings it concatenates
     format!(
-        "const SC: Trk = mk({t});\nconst N: i64 = {pkg_id};\nfn f() -> i64 {{\n    SC.tag() * 1000000 + RC.tag() * 10 + cap_tag() % 10 + (cap2_tag() % 10) * 1000000000000 + N * 0\n}}\n"
+        "const SC: Trk = mk({t});\nconst N: i64 = {pkg_id};\nfn f(mode: i64) -> i64 {{\n    let k = if mode == 0 {{\n        forget()\n    }} else if mode == 1 {{\n        keep([\"p{pkg_id}\"])\n    }} else if mode == 2 {{\n        keep([\"p\" + \"{pkg_id}\", \"b\" + \"c\"])\n    }} else {{\n        keep([\"x\" + \"p{pkg_id}\" + \"y\", \"bc\", \"d\" + \"e\" + \"f\"])\n    }};\n    {base} + k * {ARG_SCALE}\n}}\n"
     )
 }
 
-fn expected_result(pkg_id: usize, rt_id: usize) -> i64 {
-    (SC_TAG + pkg_id as i64) * 1_000_000 + (RC_TAG + rt_id as i64) * 10 + (CAP_TAG + rt_id as i64) % 10 + ((CAP2_TAG + rt_id as i64) % 10) * 1_000_000_000_000
+struct World {
+    m: Model,
+    rts: Vec<Runtime<NoCtx>>,
+    pkgs: Vec<Package<NoCtx>>,
+    hs: Vec<Handle>,
+    cs: Vec<Callable>,
+    tags: Vec<String>,
 }
 
-struct World {
-    rts: Vec<RtObj>,
-    pkgs: Vec<PkgObj>,
-    hs: Vec<HObj>,
-    next_rt: usize,
-    next_pkg: usize,
-    cur_rt: Option<usize>,
-}
+type Fail = (String, String);
 
 impl World {
-    fn new() -> World {
-        World { rts: Vec::new(), pkgs: Vec::new(), hs: Vec::new(), next_rt: 0, next_pkg: 0, cur_rt: None }
+    fn new(sink: bool) -> World {
+        World { m: Model::new(sink), rts: Vec::new(), pkgs: Vec::new(), hs: Vec::new(), cs: Vec::new(), tags: Vec::new() }
     }
 
-    fn applicable(&self, op: Op) -> bool {
-        match op {
-            Op::NewRuntime => self.next_rt < 3,
-            Op::Compile => self.cur_rt.is_some_and(|c| self.rts.iter().any(|r| r.id == c)) && self.next_pkg < 4,
-            Op::CompileOld => self.rts.len() >= 2 && self.next_pkg < 4,
-            Op::GetNew => !self.pkgs.is_empty(),
-            Op::GetOld => self.pkgs.len() >= 2,
-            Op::CloneHandle | Op::DropOldHandle | Op::ThreadDropHandle => !self.hs.is_empty(),
-            Op::DropNewHandle => self.hs.len() >= 2,
-            Op::DropOldPackage => !self.pkgs.is_empty(),
-            Op::DropNewPackage => self.pkgs.len() >= 2,
-            Op::DropOldRuntime => !self.rts.is_empty(),
-            Op::DropNewRuntime => self.rts.len() >= 2,
-        }
+    fn wrong(op: Op, what: &str, o: Owner, got: i64, exp: i64) -> Fail {
+        let kind = if what.contains("closure") { ":into_func-closure" } else { "" };
+        (
+            format!("lifetimes:wrong-result-after@{op:?}{kind}"),
+            format!("{what} of package {} (runtime {}) returned {got}, expected {exp}", o.0, o.1),
+        )
     }
 
-    /// expected multiset of live tags
-    fn expected_live(&self) -> BTreeMap<i64, usize> {
-        let mut m = BTreeMap::new();
-        let mut rt_alive: Vec<usize> = self.rts.iter().map(|r| r.id).collect();
-        rt_alive.extend(self.pkgs.iter().map(|p| p.rt_id));
-        rt_alive.extend(self.hs.iter().map(|h| h.rt_id));
-        rt_alive.sort();
-        rt_alive.dedup();
-        for r in rt_alive {
-            *m.entry(RC_TAG + r as i64).or_insert(0) += 1;
-            *m.entry(CAP_TAG + r as i64).or_insert(0) += 1;
-            *m.entry(CAP2_TAG + r as i64).or_insert(0) += 1;
+    /// Performs the operation on the real objects and on the model.
+    fn apply(&mut self, op: Op) -> Result<(), Fail> {
+        let fail = |e: String| (format!("lifetimes:op-failed@{op:?}"), e);
+        let forget = self.m.must_forget_before(op);
+        if forget.is_some() {
+            self.tags.push("scenario:lists-taken-out-before-last-owner".into());
         }
-        let mut pk: Vec<usize> = self.pkgs.iter().map(|p| p.id).collect();
-        pk.extend(self.hs.iter().map(|h| h.pkg_id));
-        pk.sort();
-        pk.dedup();
-        for p in pk {
-            *m.entry(SC_TAG + p as i64).or_insert(0) += 1;
-        }
-        m
-    }
-
-    fn apply(&mut self, op: Op) -> Result<(), String> {
         match op {
             Op::NewRuntime => {
-                let id = self.next_rt;
-                self.next_rt += 1;
-                self.rts.push(RtObj { id, rt: make_runtime(id) });
-                self.cur_rt = Some(id);
+                self.rts.push(make_runtime(self.m.next_rt, self.m.sink));
             }
             Op::Compile | Op::CompileOld => {
-                let rt_id = if op == Op::Compile { self.cur_rt.unwrap() } else { self.rts[0].id };
-                let rt = &self.rts.iter().find(|r| r.id == rt_id).unwrap().rt;
-                let id = self.next_pkg;
-                self.next_pkg += 1;
-                let src = script(id);
-                let pkg = FileTree::test_file("v.roto", &src, 0).compile(rt).map_err(|e| {
+                let rt_id = self.m.compile_target(op);
+                let i = self.m.rts.iter().position(|r| *r == rt_id).unwrap();
+                let src = script(self.m.next_pkg, self.m.sink);
+                let pkg = FileTree::test_file("v.roto", &src, 0).compile(&self.rts[i]).map_err(|e| {
                     let mut s = String::new();
                     let _ = e.write(&mut s, false);
-                    format!("compile failed: {s}")
+                    fail(format!("compile failed: {s}"))
                 })?;
-                self.pkgs.push(PkgObj { id, rt_id, pkg });
+                self.pkgs.push(pkg);
             }
             Op::GetNew | Op::GetOld => {
                 let i = if op == Op::GetNew { self.pkgs.len() - 1 } else { 0 };
-                let p = &mut self.pkgs[i];
-                let f = p.pkg.get_function::<fn() -> i64>("f").map_err(|e| format!("get_function: {e}"))?;
-                let (pkg_id, rt_id) = (p.id, p.rt_id);
-                self.hs.push(HObj { pkg_id, rt_id, f });
+                let f = self.pkgs[i].get_function::<fn(i64) -> i64>("f").map_err(|e| fail(format!("get_function: {e}")))?;
+                self.hs.push(f);
             }
             Op::CloneHandle => {
-                let h = &self.hs[0];
-                let c = HObj { pkg_id: h.pkg_id, rt_id: h.rt_id, f: h.f.clone() };
+                let c = self.hs[0].clone();
                 self.hs.push(c);
             }
-            Op::DropOldHandle => {
-                self.hs.remove(0);
-            }
-            Op::DropNewHandle => {
-                self.hs.pop();
+            Op::DropOldHandle | Op::DropNewHandle => {
+                let h = if op == Op::DropOldHandle { self.hs.remove(0) } else { self.hs.pop().unwrap() };
+                if let Some(o) = forget {
+                    let (got, exp) = (h.call(0), self.m.expect_call(o, 0));
+                    if got != exp {
+                        return Err(World::wrong(op, "the last handle (taking the lists out)", o, got, exp));
+                    }
+                }
+                drop(h);
             }
             Op::ThreadDropHandle => {
                 let h = self.hs.remove(0);
-                std::thread::spawn(move || {
-                    // call once on the other thread, then drop there
-                    let _ = h.f.call();
+                let o = self.m.hs[0];
+                let mode = self.m.next_mode();
+                let exp = self.m.expect_call(o, mode);
+                let exp0 = forget.map(|o| self.m.expect_call(o, 0));
+                let (got, got0) = std::thread::spawn(move || {
+                    // call on the other thread, then drop there
+                    let v = h.call_tuple(&mut NoCtx, (mode,));
+                    let v0 = exp0.map(|_| h.call(0));
                     drop(h);
+                    (v, v0)
                 })
                 .join()
-                .map_err(|_| "helper thread panicked".to_string())?;
+                .map_err(|_| fail("helper thread panicked".to_string()))?;
+                if got != exp {
+                    return Err(World::wrong(op, "handle called on a helper thread", o, got, exp));
+                }
+                if got0 != exp0 {
+                    return Err(World::wrong(op, "the last handle (taking the lists out on a helper thread)", o, got0.unwrap_or(0), exp0.unwrap_or(0)));
+                }
             }
-            Op::DropOldPackage => {
-                self.pkgs.remove(0);
-            }
-            Op::DropNewPackage => {
-                self.pkgs.pop();
+            Op::DropOldPackage | Op::DropNewPackage => {
+                let mut p = if op == Op::DropOldPackage { self.pkgs.remove(0) } else { self.pkgs.pop().unwrap() };
+                if let Some(o) = forget {
+                    let h = p.get_function::<fn(i64) -> i64>("f").map_err(|e| fail(format!("get_function: {e}")))?;
+                    let (got, exp) = (h.call(0), self.m.expect_call(o, 0));
+                    drop(h);
+                    if got != exp {
+                        return Err(World::wrong(op, "a handle of the last package (taking the lists out)", o, got, exp));
+                    }
+                }
+                drop(p);
             }
             Op::DropOldRuntime => {
                 self.rts.remove(0);
@@ -244,74 +575,156 @@ impl World {
             Op::DropNewRuntime => {
                 self.rts.pop();
             }
+            Op::IntoFuncOld | Op::IntoFuncNew => {
+                let h = if op == Op::IntoFuncOld { self.hs.remove(0) } else { self.hs.pop().unwrap() };
+                let c = into_callable(h);
+                self.tags.push(format!("closure-send-sync:{}", matches!(c, Callable::Sendable(_))));
+                self.cs.push(c);
+            }
+            Op::DropOldClosure | Op::DropNewClosure => {
+                let c = if op == Op::DropOldClosure { self.cs.remove(0) } else { self.cs.pop().unwrap() };
+                if let Some(o) = forget {
+                    let (got, exp) = (c.call(0), self.m.expect_call(o, 0));
+                    if got != exp {
+                        return Err(World::wrong(op, "the last closure (taking the lists out)", o, got, exp));
+                    }
+                }
+                drop(c);
+            }
+            Op::ThreadDropClosure => {
+                let c = self.cs.remove(0);
+                let o = self.m.cs[0];
+                let mode = self.m.next_mode();
+                let exp = self.m.expect_call(o, mode);
+                let exp0 = forget.map(|o| self.m.expect_call(o, 0));
+                let (got, got0) = match c {
+                    Callable::Sendable(f) => {
+                        self.tags.push("closure-thread:moved".into());
+                        std::thread::spawn(move || {
+                            let v = f(mode);
+                            let v0 = exp0.map(|_| f(0));
+                            drop(f);
+                            (v, v0)
+                        })
+                        .join()
+                        .map_err(|_| fail("helper thread panicked".to_string()))?
+                    }
+                    // the compiler does not let this closure type cross threads
+                    Callable::Local(f) => {
+                        self.tags.push("closure-thread:not-sendable".into());
+                        let v = f(mode);
+                        let v0 = exp0.map(|_| f(0));
+                        drop(f);
+                        (v, v0)
+                    }
+                };
+                if got != exp {
+                    return Err(World::wrong(op, "closure called on a helper thread", o, got, exp));
+                }
+                if got0 != exp0 {
+                    return Err(World::wrong(op, "the last closure (taking the lists out on a helper thread)", o, got0.unwrap_or(0), exp0.unwrap_or(0)));
+                }
+            }
+        }
+        self.m.step(op);
+        Ok(())
+    }
+
+    /// the accounting of tracked instances against the ownership model
+    fn check_ledger(&self, op: Op) -> Result<(), Fail> {
+        let rep = host::ledger_report();
+        if let Some(a) = rep.alarms.first() {
+            return Err((format!("lifetimes:ledger-{}@{op:?}", a.kind), format!("{} {}", a.kind, a.info)));
+        }
+        let live = live_tags();
+        let exp = self.m.expected_live();
+        if live != exp {
+            let early: Vec<i64> = exp.keys().filter(|t| !live.contains_key(t)).copied().collect();
+            let late: Vec<i64> = live.keys().filter(|t| !exp.contains_key(t)).copied().collect();
+            let kind = if !early.is_empty() { "released-too-early" } else if !late.is_empty() { "not-released" } else { "wrong-count" };
+            let class = |t: i64| {
+                if t >= SC_TAG {
+                    "script-constant"
+                } else if t >= SINK_TAG {
+                    "closure-state-with-script-lists"
+                } else if t >= CAP_TAG {
+                    "closure-capture"
+                } else {
+                    "registered-constant"
+                }
+            };
+            let what = early.first().or(late.first()).map(|t| class(*t)).unwrap_or("instance");
+            return Err((format!("lifetimes:{kind}:{what}@{op:?}"), format!("live tracked tags {live:?}, ownership model expects {exp:?}")));
+        }
+        Ok(())
+    }
+
+    /// every surviving handle (through `call` and `call_tuple`) and closure returns its own value
+    fn call_all(&mut self, op: Op, events: &mut u64) -> Result<(), Fail> {
+        for i in 0..self.hs.len() {
+            let o = self.m.hs[i];
+            let mode = self.m.next_mode();
+            let exp = self.m.expect_call(o, mode);
+            let got = self.hs[i].call(mode);
+            *events += 1;
+            if got != exp {
+                return Err(World::wrong(op, "handle", o, got, exp));
+            }
+            let mode = self.m.next_mode();
+            let exp = self.m.expect_call(o, mode);
+            let got = self.hs[i].call_tuple(&mut NoCtx, (mode,));
+            *events += 1;
+            if got != exp {
+                return Err(World::wrong(op, "handle (call_tuple)", o, got, exp));
+            }
+        }
+        for i in 0..self.cs.len() {
+            let o = self.m.cs[i];
+            let mode = self.m.next_mode();
+            let exp = self.m.expect_call(o, mode);
+            let got = self.cs[i].call(mode);
+            *events += 1;
+            if got != exp {
+                return Err(World::wrong(op, "into_func closure", o, got, exp));
+            }
         }
         Ok(())
     }
 }
 
+// ---------------------------------------------------------------------------
+// case plans
+// ---------------------------------------------------------------------------
+
+#[derive(Clone)]
+struct Plan {
+    sink: bool,
+    kind: &'static str,
+    ops: Vec<Op>,
+}
+
 pub struct Lifetimes {
+    /// scenario `closure-holds-script-list`: every drop order of every shape
+    scenario: Vec<Vec<Op>>,
     /// all well-formed histories up to the exhaustive length (as op index lists)
     histories: Vec<Vec<u8>>,
+    /// multiplier and offset of the order in which the histories are visited
+    stride: (u64, u64),
+}
+
+fn start_model(sink: bool) -> Model {
+    let mut m = Model::new(sink);
+    for op in START {
+        m.step(op);
+    }
+    m
 }
 
 fn enumerate(max_len: usize) -> Vec<Vec<u8>> {
-    // the abstract applicability only depends on counts, so histories can be
-    // enumerated on a count model without touching the real API
-    #[derive(Clone)]
-    struct M {
-        rts: usize,
-        pkgs: usize,
-        hs: usize,
-        next_rt: usize,
-        next_pkg: usize,
-        cur_alive: bool,
-    }
-    fn app(m: &M, op: Op) -> bool {
-        match op {
-            Op::NewRuntime => m.next_rt < 3,
-            Op::Compile => m.cur_alive && m.next_pkg < 4,
-            Op::CompileOld => m.rts >= 2 && m.next_pkg < 4,
-            Op::GetNew => m.pkgs >= 1,
-            Op::GetOld => m.pkgs >= 2,
-            Op::CloneHandle | Op::DropOldHandle | Op::ThreadDropHandle => m.hs >= 1,
-            Op::DropNewHandle => m.hs >= 2,
-            Op::DropOldPackage => m.pkgs >= 1,
-            Op::DropNewPackage => m.pkgs >= 2,
-            Op::DropOldRuntime => m.rts >= 1,
-            Op::DropNewRuntime => m.rts >= 2,
-        }
-    }
-    fn step(m: &M, op: Op) -> M {
-        let mut n = m.clone();
-        match op {
-            Op::NewRuntime => {
-                n.rts += 1;
-                n.next_rt += 1;
-                n.cur_alive = true;
-            }
-            Op::Compile | Op::CompileOld => {
-                n.pkgs += 1;
-                n.next_pkg += 1;
-            }
-            Op::GetNew | Op::GetOld | Op::CloneHandle => n.hs += 1,
-            Op::DropOldHandle | Op::DropNewHandle | Op::ThreadDropHandle => n.hs -= 1,
-            Op::DropOldPackage | Op::DropNewPackage => n.pkgs -= 1,
-            Op::DropOldRuntime => {
-                n.rts -= 1;
-                // the oldest runtime is the current one only if it is the only one
-                if n.rts == 0 {
-                    n.cur_alive = false;
-                }
-            }
-            Op::DropNewRuntime => {
-                n.rts -= 1;
-                n.cur_alive = false;
-            }
-        }
-        n
-    }
+    // applicability is decided by the model alone, so histories can be
+    // enumerated without touching the real API
     let mut out = Vec::new();
-    fn rec(m: &M, cur: &mut Vec<u8>, max_len: usize, out: &mut Vec<Vec<u8>>) {
+    fn rec(m: &Model, cur: &mut Vec<u8>, max_len: usize, out: &mut Vec<Vec<u8>>) {
         if !cur.is_empty() {
             out.push(cur.clone());
         }
@@ -319,23 +732,150 @@ fn enumerate(max_len: usize) -> Vec<Vec<u8>> {
             return;
         }
         for (i, op) in OPS.iter().enumerate() {
-            if app(m, *op) {
+            if m.applicable(*op) {
+                let mut n = m.clone();
+                n.step(*op);
                 cur.push(i as u8);
-                rec(&step(m, *op), cur, max_len, out);
+                rec(&n, cur, max_len, out);
                 cur.pop();
             }
         }
     }
     // start state: one runtime, one package, one handle already exist
-    let m = M { rts: 1, pkgs: 1, hs: 1, next_rt: 1, next_pkg: 1, cur_alive: true };
-    rec(&m, &mut Vec::new(), max_len, &mut out);
+    rec(&start_model(false), &mut Vec::new(), max_len, &mut out);
     out
+}
+
+fn permutations(n: usize) -> Vec<Vec<usize>> {
+    fn rec(rest: &mut Vec<usize>, cur: &mut Vec<usize>, out: &mut Vec<Vec<usize>>) {
+        if rest.is_empty() {
+            out.push(cur.clone());
+            return;
+        }
+        for i in 0..rest.len() {
+            let x = rest.remove(i);
+            cur.push(x);
+            rec(rest, cur, out);
+            cur.pop();
+            rest.insert(i, x);
+        }
+    }
+    let mut out = Vec::new();
+    rec(&mut (0..n).collect(), &mut Vec::new(), &mut out);
+    out
+}
+
+/// Scenario `closure-holds-script-list`: one runtime, one package; a shape says which
+/// handles, clones and closures exist; then all of them, the package and the runtime are
+/// dropped in every order, each order once on this thread only and once with the oldest
+/// handle / closure dropped on a helper thread.
+fn enumerate_scenario() -> Vec<Vec<Op>> {
+    let shapes: [&[Op]; 6] = [
+        &[],
+        &[Op::CloneHandle],
+        &[Op::IntoFuncOld],
+        &[Op::CloneHandle, Op::IntoFuncNew],
+        &[Op::CloneHandle, Op::CloneHandle, Op::IntoFuncNew],
+        &[Op::CloneHandle, Op::IntoFuncOld, Op::IntoFuncOld],
+    ];
+    #[derive(Clone, Copy, PartialEq)]
+    enum Obj {
+        R,
+        P,
+        H(usize),
+        C(usize),
+    }
+    let mut out = Vec::new();
+    for shape in shapes {
+        let mut m = start_model(true);
+        for op in shape {
+            assert!(m.applicable(*op));
+            m.step(*op);
+        }
+        let mut objs = vec![Obj::R, Obj::P];
+        objs.extend((0..m.hs.len()).map(Obj::H));
+        objs.extend((0..m.cs.len()).map(Obj::C));
+        for perm in permutations(objs.len()) {
+            for threaded in [false, true] {
+                let mut ops: Vec<Op> = shape.to_vec();
+                let mut hs: Vec<usize> = (0..m.hs.len()).collect();
+                let mut cs: Vec<usize> = (0..m.cs.len()).collect();
+                for i in &perm {
+                    ops.push(match objs[*i] {
+                        Obj::R => Op::DropOldRuntime,
+                        Obj::P => Op::DropOldPackage,
+                        Obj::H(x) => {
+                            let pos = hs.iter().position(|y| *y == x).unwrap();
+                            hs.remove(pos);
+                            if pos > 0 {
+                                Op::DropNewHandle
+                            } else if threaded {
+                                Op::ThreadDropHandle
+                            } else {
+                                Op::DropOldHandle
+                            }
+                        }
+                        Obj::C(x) => {
+                            let pos = cs.iter().position(|y| *y == x).unwrap();
+                            cs.remove(pos);
+                            if pos > 0 {
+                                Op::DropNewClosure
+                            } else if threaded {
+                                Op::ThreadDropClosure
+                            } else {
+                                Op::DropOldClosure
+                            }
+                        }
+                    });
+                }
+                out.push(ops);
+            }
+        }
+    }
+    out
+}
+
+fn gcd(a: u64, b: u64) -> u64 {
+    if b == 0 { a } else { gcd(b, a % b) }
 }
 
 impl Lifetimes {
     pub fn new(args: &Args) -> Lifetimes {
         let len = args.opt("exhaustive-len").and_then(|s| s.parse().ok()).unwrap_or(if args.thorough() { 6 } else { 4 });
-        Lifetimes { histories: enumerate(len) }
+        let histories = enumerate(len);
+        let n = histories.len().max(1) as u64;
+        // a step near n / golden ratio that is coprime to n: consecutive cases are far apart
+        let mut step = (n as f64 * 0.618_033_988_75) as u64 | 1;
+        while gcd(step, n) != 1 {
+            step += 2;
+        }
+        Lifetimes { scenario: enumerate_scenario(), histories, stride: (step % n, args.seed.wrapping_mul(7919) % n) }
+    }
+
+    /// The history of case `k` (decided on the model alone).
+    fn plan(&self, k: u64, rng: &mut Rng) -> Plan {
+        let (s, h) = (self.scenario.len() as u64, self.histories.len() as u64);
+        if k < s {
+            return Plan { sink: true, kind: "enumerated", ops: self.scenario[k as usize].clone() };
+        }
+        if k < s + h {
+            let i = ((k - s) as u128 * self.stride.0 as u128 + self.stride.1 as u128) % h as u128;
+            return Plan { sink: false, kind: "enumerated", ops: self.histories[i as usize].iter().map(|i| OPS[*i as usize]).collect() };
+        }
+        let sink = (k - s - h) % 3 == 2;
+        let mut m = start_model(sink);
+        let n = 8 + rng.usize(53);
+        let mut ops = Vec::new();
+        for _ in 0..n {
+            let apps: Vec<Op> = OPS.iter().copied().filter(|o| m.applicable(*o)).collect();
+            if apps.is_empty() {
+                break;
+            }
+            let op = apps[rng.usize(apps.len())];
+            m.step(op);
+            ops.push(op);
+        }
+        Plan { sink, kind: "random", ops }
     }
 }
 
@@ -348,90 +888,111 @@ fn live_tags() -> BTreeMap<i64, usize> {
     m
 }
 
+fn plan_json(p: &Plan) -> J {
+    let mut j = J::obj()
+        .set("start", J::Arr(START.iter().map(|o| J::Str(format!("{o:?}"))).collect()))
+        .set("history", J::Arr(p.ops.iter().map(|o| J::Str(format!("{o:?}"))).collect()))
+        .set("kind", p.kind);
+    if p.sink {
+        j.put("scenario", "closure-holds-script-list");
+        j.put("script", script(0, true));
+    }
+    j
+}
+
 impl Family for Lifetimes {
     fn n_cases(&self, args: &Args) -> u64 {
-        self.histories.len() as u64 + if args.thorough() { 20_000 } else { 1_500 }
+        (self.scenario.len() + self.histories.len()) as u64 + if args.thorough() { 20_000 } else { 1_500 }
+    }
+
+    fn describe(&mut self, k: u64, rng: &mut Rng, _args: &Args) -> Option<J> {
+        let p = self.plan(k, rng);
+        let mut j = plan_json(&p);
+        if p.sink {
+            j.put("sig_hint", "lifetimes:scenario:closure-holds-script-list");
+        }
+        Some(j)
     }
 
     fn run(&mut self, k: u64, rng: &mut Rng, _args: &Args) -> CaseOut {
         let mut out = CaseOut::default();
-        // history: enumerated prefix space first, then random long ones
-        let exhaustive = (k as usize) < self.histories.len();
-        let plan: Option<Vec<u8>> = if exhaustive { Some(self.histories[k as usize].clone()) } else { None };
-        out.tags.push(if exhaustive { "history:enumerated".into() } else { "history:random".into() });
+        let plan = self.plan(k, rng);
+        out.tags.push(format!("history:{}", plan.kind));
+        if plan.sink {
+            out.tags.push("scenario:closure-holds-script-list".into());
+        }
         host::ledger_reset();
-        let mut w = World::new();
+        let mut w = World::new(plan.sink);
         let mut trace: Vec<String> = Vec::new();
         let mut ops_done = 0u64;
-        let r = catch(|| -> Result<(), (String, String)> {
+        let mut events = 0u64;
+        let r = catch(|| -> Result<(), Fail> {
             // seeded start state: one runtime, one package, one handle
-            for op in [Op::NewRuntime, Op::Compile, Op::GetNew] {
-                w.apply(op).map_err(|e| ("lifetimes:setup".to_string(), e))?;
+            for op in START {
+                w.apply(op).map_err(|(_, e)| ("lifetimes:setup".to_string(), e))?;
             }
-            let n = plan.as_ref().map(|p| p.len()).unwrap_or_else(|| 8 + rng.usize(53));
-            for step in 0..n {
-                let op = match &plan {
-                    Some(p) => OPS[p[step] as usize],
-                    None => {
-                        let apps: Vec<Op> = OPS.iter().copied().filter(|o| w.applicable(*o)).collect();
-                        if apps.is_empty() {
-                            break;
-                        }
-                        apps[rng.usize(apps.len())]
-                    }
-                };
-                if !w.applicable(op) {
+            for (step, op) in plan.ops.iter().copied().enumerate() {
+                if !w.m.applicable(op) {
                     return Err(("lifetimes:harness-plan".into(), format!("{op:?} not applicable at step {step}")));
                 }
                 trace.push(format!("{op:?}"));
-                out.tags.push(format!("op:{op:?}"));
-                w.apply(op).map_err(|e| (format!("lifetimes:op-failed@{op:?}"), e))?;
+                if plan.sink && matches!(op, Op::DropOldRuntime | Op::DropNewRuntime) {
+                    let r = if op == Op::DropOldRuntime { w.m.rts[0] } else { *w.m.rts.last().unwrap() };
+                    let owned = w.m.pkgs.iter().chain(w.m.hs.iter()).chain(w.m.cs.iter()).any(|o| o.1 == r);
+                    out.tags.push(format!("scenario:runtime-dropped-{}", if owned { "before-last-owner" } else { "last" }));
+                }
+                if plan.sink
+                    && let Some(o) = w.m.dropped_owner(op)
+                    && w.m.owner_count(o.0) == 1
+                    && !w.m.rts.contains(&o.1)
+                {
+                    let n = w.m.stored.get(&o.1).map(|v| v.len()).unwrap_or(0);
+                    out.tags.push(format!("scenario:last-owner-releases-state-holding-lists:{}", if n == 0 { "0" } else { "some" }));
+                    out.tags.push(format!("scenario:last-owner-dropped-by:{op:?}"));
+                }
+                w.apply(op)?;
                 ops_done += 1;
-                // 1. every surviving handle still returns its own value
-                for h in &w.hs {
-                    let v = h.f.call();
-                    out.events += 1;
-                    let e = expected_result(h.pkg_id, h.rt_id);
-                    if v != e {
-                        return Err((
-                            format!("lifetimes:wrong-result-after@{op:?}"),
-                            format!("handle of package {} (runtime {}) returned {v}, expected {e} after {trace:?}", h.pkg_id, h.rt_id),
-                        ));
-                    }
-                }
-                // 2. ledger: no alarm, live set as the ownership model says
-                let rep = host::ledger_report();
-                if let Some(a) = rep.alarms.first() {
-                    return Err((format!("lifetimes:ledger-{}@{op:?}", a.kind), format!("{} {} after {trace:?}", a.kind, a.info)));
-                }
-                let live = live_tags();
-                let exp = w.expected_live();
-                out.events += 1;
-                if live != exp {
-                    let early: Vec<i64> = exp.keys().filter(|t| !live.contains_key(t)).copied().collect();
-                    let late: Vec<i64> = live.keys().filter(|t| !exp.contains_key(t)).copied().collect();
-                    let kind = if !early.is_empty() { "released-too-early" } else if !late.is_empty() { "not-released" } else { "wrong-count" };
-                    let class = |t: i64| if t >= SC_TAG { "script-constant" } else if t >= CAP_TAG { "closure-capture" } else { "registered-constant" };
-                    let what = early.first().or(late.first()).map(|t| class(*t)).unwrap_or("instance");
-                    return Err((
-                        format!("lifetimes:{kind}:{what}@{op:?}"),
-                        format!("live tracked tags {live:?}, ownership model expects {exp:?} after {trace:?}"),
-                    ));
-                }
+                // 1. accounting: the live set is what the ownership model says (before anything is called)
+                w.check_ledger(op)?;
+                events += 1;
+                // 2. every surviving handle and closure still returns its own value
+                w.call_all(op, &mut events)?;
+                // 3. the calls found everything they touched alive
+                w.check_ledger(op)?;
+                events += 1;
             }
             Ok(())
         });
+        out.tags.extend(trace.iter().map(|t| format!("op:{t}")));
+        out.tags.append(&mut w.tags);
+        out.tags.sort();
+        out.tags.dedup();
         out.evals = ops_done;
+        out.events = events;
         out.nontrivial = ops_done > 0;
-        out.hash = hash_str(&format!("{trace:?}"));
-        out.sample = Some(J::obj().set("history", J::Arr(trace.iter().map(|s| J::Str(s.clone())).collect())));
+        out.hash = hash_str(&format!("{}{trace:?}", plan.sink));
+        out.sample = Some(plan_json(&plan));
         match r {
             Err(p) => out.viol(format!("{}@lifetimes", panic_sig(&p)), format!("{p} after {trace:?}"), J::Null),
-            Ok(Err((sig, msg))) => out.viol(sig, msg, J::Null),
+            Ok(Err((sig, msg))) => out.viol(sig, format!("{msg} after {trace:?}"), J::Null),
             Ok(Ok(())) => {}
         }
-        // tear everything down: nothing may stay live and nothing may be dropped twice
-        drop(w);
+        // Tear everything down: nothing may stay live and nothing may be dropped twice.
+        if out.viols.is_empty() {
+            // The runtime objects go first: from here on every closure state is owned by the
+            // modules compiled from its runtime only (in a scenario world: by the one package
+            // whose code made the lists it holds), and is released together with them.
+            let r = catch(|| {
+                w.rts.clear();
+                drop(w);
+            });
+            if let Err(p) = r {
+                out.viol(format!("{}@lifetimes-teardown", panic_sig(&p)), format!("{p} in the teardown after {trace:?}"), J::Null);
+            }
+        } else {
+            // after a violation the state of the objects is unknown: they are not torn down
+            std::mem::forget(w);
+        }
         let rep = host::ledger_report();
         if out.viols.is_empty() {
             if let Some(a) = rep.alarms.first() {
@@ -439,7 +1000,7 @@ impl Family for Lifetimes {
             } else if !rep.live.is_empty() {
                 out.viol(
                     "lifetimes:not-released@teardown",
-                    format!("after dropping every runtime, package and handle {:?} are still live (history {trace:?})", live_tags()),
+                    format!("after dropping every runtime, package, handle and closure {:?} are still live (history {trace:?})", live_tags()),
                     J::Null,
                 );
             }
